@@ -247,6 +247,22 @@ theorem atomic_exact (s : Str) :
     isAtomic s = true ↔ ∃ a, ValidAtom a ∧ (s = a ∨ s = a ++ ['\n']) :=
   isAtomic_iff s
 
+/-- a table atom has exactly one reading as prefix, unit and power text -/
+theorem atom_reading_unique (p u w p' u' w' : Str) (hp : p ∈ optPrefixes) (hu : u ∈ units)
+    (hw : PowerText w) (hp' : p' ∈ optPrefixes) (hu' : u' ∈ units) (hw' : PowerText w')
+    (h : p ++ u ++ w = p' ++ u' ++ w') : p = p' ∧ u = u' ∧ w = w' :=
+  atom_decomposition_unique p u w p' u' w' hp hu hw hp' hu' hw' h
+
+/-- `split` of a string that is not an atomic unit returns it whole as the unit (no prefix, no power), and
+`invert_power` appends `^-1` to it -/
+theorem split_of_non_atomic (s : Str) (h : isAtomic s = false) :
+    split s = ([], s, []) ∧ Compound.invertPower s = s ++ ['^', '-', '1'] := by
+  have hs := split_non_atomic s h
+  refine ⟨hs, ?_⟩
+  unfold Compound.invertPower
+  rw [hs]
+  simp [invertTable.1]
+
 /-- `is_compound` accepts exactly the strings that contain two table atoms joined by `*` or `/` (it searches,
 so anything may stand in front and behind) -/
 theorem compound_exact (s : Str) :
